@@ -348,7 +348,7 @@ def diff_at(t, a, b):
             return None if a[0] == b[0] else ("opt", a[0], b[0])
         return diff_at(t[1], a, b)
     if k == "union":
-        return None if sc.veq(a, b) else ("union", a[0], b[0])
+        return None if sc.veq(a, b) else ("union", a[0], b[0], t, a, b)
     if a[0] != b[0]:
         return (k, a[0], b[0])
     if k in ("list", "tupvar", "set"):
@@ -387,6 +387,49 @@ def diff_at(t, a, b):
     return None if list(a) == list(b) else (k, a[0], b[0])
 
 
+_TRUE = ["yes", "true", "t", "y", "1"]
+_FALSE = ["no", "false", "f", "n", "0"]
+
+
+def _convert(member, x):
+    """what the registered decoder of a primitive Union member makes of the Python scalar x (None = it raises)"""
+    try:
+        if member == "int":
+            return int(x)
+        if member == "float":
+            return float(x)
+        if member == "str":
+            return str(x)
+        if member == "bool":
+            if isinstance(x, str):
+                w = x.strip().lower()
+                return True if w in _TRUE else False if w in _FALSE else None
+            return bool(x)
+    except (ValueError, TypeError, OverflowError):
+        return None
+    return None
+
+
+def first_success_evidence(t, a, b):
+    """True iff the observed value b is exactly what the FIRST member (in declared order) whose decoder accepts the original
+    scalar a produces, and that member is declared before the first member a is an instance of — the signature of
+    try_functions' first-success rule, as opposed to any other way a Union value can come back changed."""
+    members = [m[0] for m in t[1]]
+    if a[0] not in ("int", "float", "str", "bool") or any(m not in ("int", "float", "str", "bool") for m in members):
+        return False
+    x = sc.prim_to_py(a)
+    own = next((i for i, m in enumerate(members) if m == a[0]), None)
+    if own is None:
+        return False
+    for j, m in enumerate(members):
+        r = _convert(m, x)
+        if r is None:
+            continue
+        got = ["bool", r] if m == "bool" else ["int", str(r)] if m == "int" else ["float", repr(r)] if m == "float" else ["str", r]
+        return j < own and got == list(b)
+    return False
+
+
 def _via_name(via):
     return via[1] if via[0] != "raw" else "raw"
 
@@ -407,7 +450,10 @@ def judge(case, obs):
     d = diff_at(case["ty"], expect, got)
     if d:
         if d[0] == "union":
-            return ("union-first-success-lossy", f"Union member value came back changed: {d[1]} -> {d[2]} (via {_via_name(via)})")
+            if first_success_evidence(d[3], d[4], d[5]):
+                return ("union-first-success-lossy", f"Union member value came back changed: {d[1]} -> {d[2]} (via {_via_name(via)})")
+            return (f"union-changed-not-by-first-success:{d[1]}->{d[2]}:{_via_name(via)}",
+                    f"Union member value {d[4]} came back as {d[5]}, which is not what the first accepting member declared before its own produces")
         return (f"changed:{d[0]}:{d[1]}->{d[2]}:{_via_name(via)}", f"value at a {d[0]} position came back changed: {d[1]} -> {d[2]}")
     if not sc.has_type(got, case["ty"]):
         return (f"ill-typed:{_via_name(via)}", "the decoded instance does not conform to its annotations")
